@@ -1,15 +1,161 @@
-(* Property C17 - theorem list (statements only; proofs live in coq/Seq/SeqProofs.v). *)
+(* Property C17 - theorem list (statements only; proofs live in coq/Seq/SeqProofs.v and coq/Seq/SeqTranscribe.v).
+   Model: coq/Seq/SeqApi.v (executable, extracted for the per-run correspondence); specification-side definitions:
+   coq/Seq/SeqSpec.v.  g_fixed cfg = true is the code as it is now (after the fix: commits c91e7fa, b3054e3, 81b9529);
+   g_fixed cfg = false is the pinned snapshot, kept for the refutation witnesses. *)
 From Coq Require Import NArith List Bool.
 From ZV.Codec Require Import Bytes Block.
-From ZV.Seq Require Import SeqApi SeqSpec SeqProofs.
+From ZV.Seq Require Import SeqApi SeqSpec SeqProofs SeqTranscribe.
 Import ListNotations.
 Local Open Scope N_scope.
 
-(* ZSTD_finalizeOffBase + ZSTD_updateRep produce a code that the decoder's repeat-offset rule (resolve_offset of the
-   reference decoder R) maps back to the raw offset, and both sides end in the same history *)
+(* ---- transcription: the per-block seqStores are valid parses of their slices w.r.t. the whole history ---- *)
+(* delimiter-free mode (ZSTD_copySequencesToSeqStoreNoBlockDelim under the block loop): every history [byte], dictionary
+   size D, source size E < 2^32, every valid parse S, every block size >= minMatch >= 1, every repcode history and list of
+   commit decisions, both variants: accepted => the blocks tile [0,E), each stored match is a sub-range of an original match
+   with the same offset (match_ok), lengths add up. *)
+Theorem C17_transcription_preserves_content_nodelim : forall byte D E cfg ers bsMax S rep dec blks,
+  E < M32 -> 1 <= g_minMatch cfg -> g_minMatch cfg <= bsMax ->
+  valid_from byte D 0 S E ->
+  compress_sequences cfg false ers bsMax E S rep dec = Done blks ->
+  blocks_valid byte D 0 blks E.
+Proof. exact transcription_preserves_content_nodelim. Qed.
+Print Assumptions C17_transcription_preserves_content_nodelim.
+
+(* explicit delimiters (ZSTD_copySequencesToSeqStoreExplicitBlockDelim) *)
+Theorem C17_transcription_preserves_content_explicit : forall byte D E cfg ers bsMax S rep dec blks,
+  E < M32 -> valid_from_ex byte D E 0 S ->
+  compress_sequences cfg true ers bsMax E S rep dec = Done blks ->
+  blocks_valid byte D 0 blks E.
+Proof. exact transcription_preserves_content_explicit. Qed.
+Print Assumptions C17_transcription_preserves_content_explicit.
+
+(* ---- repcodes: ZSTD_finalizeOffBase + ZSTD_updateRep stay in lock-step with the decoder's rule (resolve_offset of R) ---- *)
 Theorem C17_offbase_finalisation_lockstep_one : forall raw ll rep,
   rep_ok rep -> 1 <= raw -> raw + 3 < M32 ->
   let ob := finalize_offbase raw rep (ll =? 0) in
   resolve_offset ob ll rep = Ok (raw, update_rep rep ob (ll =? 0)) /\ rep_ok (update_rep rep ob (ll =? 0)) /\ 1 <= ob.
 Proof. exact finalize_lockstep. Qed.
 Print Assumptions C17_offbase_finalisation_lockstep_one.
+
+(* whole frame, both delimiter modes, both searchForExternalRepcodes modes (history rebuilt from the last three raw offsets
+   when the search is skipped), every list of commit decisions of the entropy stage: a decoder that keeps its history
+   across raw / RLE blocks resolves every code of every block to the raw offset it was made from *)
+Theorem C17_offbase_finalisation_lockstep : forall cfg delims ers bsMax srcSize S rep dec blks,
+  compress_sequences cfg delims ers bsMax srcSize S rep dec = Done blks ->
+  offsets_fit delims S -> rep_ok rep -> blocks_lockstep rep dec blks.
+Proof. exact offbase_finalisation_lockstep. Qed.
+Print Assumptions C17_offbase_finalisation_lockstep.
+
+(* ---- validation (code as repaired) ---- *)
+(* accepted with validateSequences=1 => every stored piece has 1 <= offset <= min(window, position of the match start) +
+   dictionary (dictionary only while position <= window) and matchLength >= (minMatch == 3 or producer ? 3 : 4) *)
+Theorem C17_validation_complete : forall cfg delims ers bsMax srcSize S rep dec blks,
+  g_fixed cfg = true -> g_validate cfg = true -> bsMax < M32 ->
+  compress_sequences cfg delims ers bsMax srcSize S rep dec = Done blks -> blocks_rule cfg 0 blks.
+Proof. exact validation_complete. Qed.
+Print Assumptions C17_validation_complete.
+
+(* the accepted bound is exactly the format's window rule as the reference decoder R enforces it (offset_ok, strict) *)
+Theorem C17_validate_rule_is_format_rule : forall cfg pos off hist marks blk,
+  1 <= off ->
+  (off <= offset_bound cfg pos <->
+   offset_ok true (pow2 (g_wlog cfg))
+             {| x_hist := hist; x_marks := marks; x_avail := g_dict cfg + pos; x_pos := pos; x_blk := blk |} off = true).
+Proof. exact validate_rule_is_format_rule. Qed.
+Print Assumptions C17_validate_rule_is_format_rule.
+
+(* arbitrary sequence arrays (32-bit fields), validation on, source + dictionary below 4 GiB: no outcome of the model is an
+   out-of-bounds access (neither copier, both delimiter modes) *)
+Theorem C17_validation_memory_safe : forall cfg delims ers bsMax srcSize S rep dec,
+  g_fixed cfg = true -> g_validate cfg = true -> g_wlog cfg <= 31 -> bsMax < M32 ->
+  srcSize + g_dict cfg + 3 < M32 -> fields32 S ->
+  forall site, compress_sequences cfg delims ers bsMax srcSize S rep dec <> Oob site.
+Proof. exact validation_memory_safe. Qed.
+Print Assumptions C17_validation_memory_safe.
+
+(* explicit delimiters: missing delimiter, ill-formed delimiter, block longer than the block size or than the rest of the source *)
+Theorem C17_delimiter_errors : forall cfg ers bsMax srcSize S rep dec,
+  srcSize <> 0 ->
+  (Forall (fun s => q_off s <> 0) S -> compress_sequences cfg true ers bsMax srcSize S rep dec = Invalid 10) /\
+  (forall pre d rest, S = pre ++ d :: rest -> Forall (fun s => q_off s <> 0) pre -> q_off d = 0 ->
+     (q_ml d <> 0 -> compress_sequences cfg true ers bsMax srcSize S rep dec = Invalid 11) /\
+     (q_ml d = 0 -> bsMax < sum32 pre + add32 (q_ll d) 0 -> compress_sequences cfg true ers bsMax srcSize S rep dec = Invalid 12) /\
+     (q_ml d = 0 -> sum32 pre + add32 (q_ll d) 0 <= bsMax -> srcSize < sum32 pre + add32 (q_ll d) 0 ->
+        compress_sequences cfg true ers bsMax srcSize S rep dec = Invalid 13)).
+Proof. exact delimiter_errors. Qed.
+Print Assumptions C17_delimiter_errors.
+
+(* "ip == iend": a block the explicit copier accepts has lengths equal to the block size *)
+Theorem C17_explicit_block_lengths_agree : forall cfg ers bsz S rep pos rest br,
+  copy_explicit cfg ers bsz S rep pos = Done (rest, br) -> stored_sum32 (r_seqs br) + r_lastLL br = bsz.
+Proof. exact explicit_block_lengths_agree. Qed.
+Print Assumptions C17_explicit_block_lengths_agree.
+
+(* ---- ZSTD_mergeBlockDelimiters / ZSTD_copyBlockSequences ---- *)
+Theorem C17_merge_preserves_placements : forall S,
+  total_len S < M32 -> placements 0 (merge_delims S 0) = placements 0 S.
+Proof. exact merge_preserves_placements. Qed.
+Print Assumptions C17_merge_preserves_placements.
+
+Theorem C17_generate_resolves_like_decoder : forall stored rep offs rep',
+  rep_ok rep -> Forall (fun t => 1 <= t_ob t /\ t_ob t < M32) stored ->
+  decode_offsets rep stored = Ok (offs, rep') ->
+  map (fun g => q_off (o_seq g)) (copy_block_sequences true stored rep) = offs /\
+  map (fun g => (q_ll (o_seq g), q_ml (o_seq g))) (copy_block_sequences true stored rep) = map (fun t => (t_ll t, t_ml t)) stored.
+Proof. exact generate_resolves_like_decoder. Qed.
+Print Assumptions C17_generate_resolves_like_decoder.
+
+(* ---- external producer: fallback decision ---- *)
+Theorem C17_producer_fallback : forall cfg ers fallback buf nb capacity srcSize rep,
+  (post_process buf nb capacity srcSize = PPfail ->
+     producer_block cfg ers fallback buf nb capacity srcSize rep = if fallback then PRfallback else PRfail_producer) /\
+  (forall seqs, post_process buf nb capacity srcSize = PPok seqs ->
+     producer_block cfg ers fallback buf nb capacity srcSize rep <> PRfallback /\
+     producer_block cfg ers fallback buf nb capacity srcSize rep <> PRfail_producer) /\
+  (capacity < nb -> post_process buf nb capacity srcSize = PPfail) /\
+  (nb = 0 -> 0 < srcSize -> post_process buf nb capacity srcSize = PPfail) /\
+  (nb <= capacity -> 0 < nb -> 0 < srcSize -> is_delim (nth (N.to_nat (nb - 1)) buf (delim 0)) = false -> nb = capacity ->
+     post_process buf nb capacity srcSize = PPfail).
+Proof. exact producer_fallback. Qed.
+Print Assumptions C17_producer_fallback.
+
+(* ---- refutation witnesses on the snapshot variant (each replayed on the real code by the check) ---- *)
+Theorem C17_validation_offset_refuted :
+  let cfg := cfg_found 12 4 0 1000 true in
+  let S := [z 50 0 100; z 100 0 3900; delim 0] in
+  is_done (compress_sequences cfg true false 4000 4000 S rep_start []) = true /\
+  ~ rule_holds cfg 0 S /\
+  is_done (compress_sequences (cfg_fixed 12 4 0 1000 true) true false 4000 4000 S rep_start []) = false.
+Proof. exact validation_offset_refuted. Qed.
+Print Assumptions C17_validation_offset_refuted.
+
+Theorem C17_validation_repcode_refuted :
+  let cfg := cfg_found 10 3 0 33 true in
+  let S := [z 8 0 3] in
+  is_done (compress_sequences cfg false true 100 100 S rep_start []) = true /\
+  ~ rule_holds cfg 0 S /\
+  is_done (compress_sequences (cfg_fixed 10 3 0 33 true) false true 100 100 S rep_start []) = false.
+Proof. exact validation_repcode_refuted. Qed.
+Print Assumptions C17_validation_repcode_refuted.
+
+Theorem C17_validation_lengths_refuted :
+  let S := [z 1 4294967295 5; delim 3996] in
+  is_oob (compress_sequences (cfg_found 12 4 0 1000 true) true false 4000 4000 S rep_start []) = true /\
+  compress_sequences (cfg_fixed 12 4 0 1000 true) true false 4000 4000 S rep_start [] = Invalid 14.
+Proof. exact validation_lengths_refuted. Qed.
+Print Assumptions C17_validation_lengths_refuted.
+
+Theorem C17_overrun_refuted :
+  let S := [z 1 1 1026] in
+  is_oob (compress_sequences (cfg_found 10 4 0 256 true) false true 1024 1026 S rep_start []) = true /\
+  compress_sequences (cfg_fixed 10 4 0 256 true) false true 1024 1026 S rep_start [] = Invalid 15.
+Proof. exact overrun_refuted. Qed.
+Print Assumptions C17_overrun_refuted.
+
+Theorem C17_generate_ll65536_refuted :
+  let st := [{| t_ll := 65536; t_ml := 4; t_ob := 2; t_raw := 4 |}; {| t_ll := 1; t_ml := 4; t_ob := 1; t_raw := 4 |}] in
+  map (fun g => q_off (o_seq g)) (copy_block_sequences false st rep_start) = [4; 8] /\
+  map (fun g => q_off (o_seq g)) (copy_block_sequences true st rep_start) = [4; 4] /\
+  decode_offsets rep_start st = Ok ([4; 4], (4, 1, 8)).
+Proof. exact generate_ll65536_refuted. Qed.
+Print Assumptions C17_generate_ll65536_refuted.
